@@ -16,7 +16,8 @@ META = {
         'connections[i].write_mut() with i the index returned together with the call by the select; (R08.4) the handler is '
         'awaited in the loop body (sequential handling per decode order, no spawn/join); (R08.5) every decoded call reaches '
         'the handler and Service::handle lies on every path of the handler; (R08.6) every reply operation used by the '
-        'handler flushes (enqueue followed by the transport write on all paths) - a reply is never left queued. '
+        'handler flushes (enqueue followed by the transport write on all paths) - a reply is never left queued; (R08.7) the receive '
+        'path is cancel-safe (same rule code as C07) because the select loop drops pending receive futures on every iteration. '
         'Not decided: equality with a sequential reference for all interleavings of several connections.'),
     'assumptions': ['moves make "at most once" a type fact (a Call value cannot be handled twice)',
                     'send_reply/send_error framing is C02'],
@@ -283,6 +284,10 @@ def check(fx, rep, tier):
     rep.rule('R08.4', 'the handler future is awaited in the loop body; no spawn/join in the server module')
     rep.rule('R08.5', 'every decoded call reaches the handler; Service::handle is on every path of the handler; the handled call is the select item')
     rep.rule('R08.6', 'reply operations used by the handler flush: nothing stays queued when the handler returns')
+    rep.rule('R08.7', 'the receive path is cancel-safe (R07.1-R07.3): the select loop drops every pending receive future each time another branch '
+                      'wins, so a call arriving in several reads is still decoded whole and handled exactly once')
     for cfg in ['full'] + (['ws'] if tier == 'thorough' else []):
         check_cfg(fx, rep, fx.crate('zlink_core', cfg), cfg)
+    import imports
+    imports.cancel_safety(fx, rep, 'R08.7', 'the server loop drops pending receive futures whenever another connection, an accept or a stream item wins the select')
     return META
